@@ -304,10 +304,20 @@ class DFlags(Plugin):
         s.zero_loop_lines = _certified_zero_loops(eng.prog, fn)
         # (dirty, clr_first, clr_full, nul, last stored value, last loaded value, length of the string currently in dest if measured,
         #  wrote: this call stored something (zero or not) into dest, slack: since the last non-zero write dest was zeroed up to its declared end)
-        return (False, False, False, False, None, None, None, False, False)
+        #  accp: offset of the last load/store through dest, term: offset of the terminator (first zero since the last non-zero store / the element proven zero by a test)
+        return (False, False, False, False, None, None, None, False, False, None, None)
 
     def no_inline(s, fn):
         return fn.name in s.noinline
+
+    def on_rename(s, pl, old, new):
+        """a merge phi re-expressed a dest pointer: follow it in the remembered access / terminator positions"""
+        if old[1] != s.root or new[1] != s.root or len(pl) < 11:
+            return pl
+        a, t = pl[9], pl[10]
+        if a == old[2] or t == old[2]:
+            return pl[:9] + (new[2] if a == old[2] else a, new[2] if t == old[2] else t) + pl[11:]
+        return pl
 
     # -- helpers
     def is_dest(s, p):
@@ -338,7 +348,8 @@ class DFlags(Plugin):
                 slack = True                     # a zero-only loop that capcheck certified to run exactly to dest + dmax
         else:
             slack = False
-        return r + (True, slack)
+        term = (pl[10] if pl[10] is not None else p[2]) if zero else None
+        return r + (True, slack, p[2], term)
 
     def _write(s, pl, p, n, zero, eng, facts):
         dirty, c1, cf, nul, lst, lld, slen = pl
@@ -380,7 +391,7 @@ class DFlags(Plugin):
         if k == "load":
             p = ev[1]
             if s.is_dest(p) and "id" in ev[2]:
-                return pl[:5] + (Lin.atom(ev[3].pre + ev[2]["id"]),) + pl[6:]
+                return pl[:5] + (Lin.atom(ev[3].pre + ev[2]["id"]),) + pl[6:9] + (p[2], pl[10])
             return pl
         if k == "edge":
             ct, val = ev[1], ev[2]
@@ -388,7 +399,7 @@ class DFlags(Plugin):
             if (lst is not None or lld is not None) and not pl[3]:
                 z = s.zero_test(ct, val)
                 if z is not None and (z == lst or z == lld):
-                    return pl[:3] + (True,) + pl[4:]
+                    return pl[:3] + (True,) + pl[4:10] + (pl[10] if pl[10] is not None else pl[9],)     # the element just stored / loaded is the terminator
             return pl
         if k == "indirect":
             # the formatter's output callback out(character, buffer, idx, maxlen): a store of `character` into buffer (contract of out_fct_type)
@@ -397,7 +408,7 @@ class DFlags(Plugin):
                 c = eng.as_lin(args[0]) if args[0][0] == "i" else None
                 if c is not None and c.is_const() and c.c == 0:
                     return pl[:3] + (True,) + pl[4:]
-                return (True, False, False, False) + pl[4:7] + (True, False)
+                return (True, False, False, False) + pl[4:7] + (True, False, None, None)
             return pl
         if k == "leave" and ev[1].name in ("_strnlen_s_chk", "_wcsnlen_s_chk") and ev[2] is not None:
             i, fr = ev[3], ev[4]
@@ -455,12 +466,12 @@ class DFlags(Plugin):
             if dk:
                 a0 = args[dk[0]]
                 w = s.write(pl, a0, None, False, eng, facts)
-                ok = w[:3] + (True,) + w[4:8] + (a0[2].is_const() and a0[2].c == 0,)      # its own success leaves the slack behind its result cleared (its own C08)
+                ok = w[:3] + (True,) + w[4:8] + (a0[2].is_const() and a0[2].c == 0, None, None)      # its own success leaves the slack behind its result cleared (its own C08)
                 conv = s.opaque_convention.get(callee.name)
                 if conv is None or not (a0[2].is_const() and a0[2].c == 0):
                     return [(ok, [])]
                 # assume-guarantee: on success the callee left a string in dest; on failure it reset dest itself (its own C04/C03)
-                failed = (False, True, True, True) + pl[4:7] + (True, True)
+                failed = (False, True, True, True) + pl[4:7] + (True, True, None, None)
                 return [(ok, [(lambda r, conv=conv: conv_success_term(conv, r), True)]),
                         (failed, [(lambda r, conv=conv: conv_success_term(conv, r), False)])]
             return [(pl, [])]
